@@ -337,7 +337,43 @@ func c08Programs(tier string) []*schedmc.Program {
 	return progs
 }
 
+// c08LongPrograms: a waiter whose Lock waits for SECONDS (longer than the 3 s read timeout of the
+// clients that carry commands between members): holder keeps an untimed lock for 4 s, the waiter
+// asks with a 5 s deadline from 2 ms on and must get the lock at about 4 s. Explored at a lower
+// preemption bound (every 10 ms poll is a handful of scheduling points, an execution has thousands).
+func c08LongPrograms(tier string) []*schedmc.Program {
+	var progs []*schedmc.Program
+	ps := []string{"L0/0 S4000 U", "S2 L0/5000 U"}
+	for _, ents := range [][]string{{"EO", "EN"}, {"EO", "EO"}, {"EN", "EN2"}, {"EO", "CC"}} {
+		ents := ents
+		p := &schedmc.Program{
+			Name: fmt.Sprintf("long wait locks=[%s] N=3 R=1 entries=%s", strings.Join(ps, " || "), strings.Join(ents, "+")),
+			Opts: simcluster.Opts{N: 3, Replicas: 1, WriteQ: 1, ReadQ: 1, Partitions: 7},
+			DMap: "locks", Key: "res",
+		}
+		for i, e := range ents {
+			p.Threads = append(p.Threads, schedmc.Thread{Entry: e, Body: lockBody(ps[i])})
+		}
+		p.Judge = func(cl *simcluster.Cluster, h *schedmc.Hist, x *sched.Exec) (string, string) {
+			sig := fmt.Sprintf("long-wait/entries=%s", strings.Join(classes(ents), "+"))
+			if k, w := judgeLocks(h, sig, x); k != "" {
+				return k, w
+			}
+			// the waiter must have got the lock (the holder released it one second before the deadline)
+			for _, c := range h.Calls {
+				if c.Thread == 1 && c.Op == "lock" && c.Ret != 0 && c.Res.Err != "" {
+					return "long-wait/lock-not-granted/" + sig, fmt.Sprintf("%s: the holder released the lock at 4 s, the waiter's deadline was 5 s", c)
+				}
+			}
+			return "", ""
+		}
+		progs = append(progs, p)
+	}
+	return progs
+}
+
 func init() {
+	schedmc.Families["C08long"] = c08LongPrograms
 	schedmc.Families["C08"] = c08Programs
 	core.Register(&core.Check{ID: "C08", Level: "model_checking", Run: func(c *core.Ctx) {
 		bound := 2
@@ -352,6 +388,14 @@ func init() {
 			shards, maxExecs = 4, 150000
 		}
 		schedmc.RunFamily(c, "C08", bound, shards, maxExecs)
+		// the seconds-long wait: default schedule only in quick, one preemption in thorough
+		lb := 0
+		if !c.Quick() {
+			lb = 1
+		}
+		schedmc.RunFamily(c, "C08long", lb, shards, maxExecs)
+		c.Cov["long_wait_part"] = fmt.Sprintf("a Lock that waits 4 s for its predecessor (5 s deadline) through owner, non-owner and cluster-client paths, preemption bound %d; the clients' 3 s read timeout is modelled on the virtual clock", lb)
+		c.Cov["preemption_bound_completed"] = bound
 		c.Cov["traces_validated_against_impl"] = 0
 		c.Assumef("time is the virtual clock: it advances 1ns per time.Now() and otherwise only by explicit scheduler transitions; ttl resolution is 1ms and the oracle allows that much")
 	}})
